@@ -227,7 +227,33 @@ def run(tier, seed, build):
         elif m[0] == "Ok" and len(m[1]) > 2:
             if m[1][2] and all(x == "T" for x in m[1][2]): dist["system_names_ok"] += 1
             else: failures.append({"kind": "tie", "key": "names-okb", "summary": "a loaded system does not pass names_okb, the hypothesis of the system-level theorem", "replay": rep})
-    return {"evaluations": len(cases) + len(scases), "distinct_nontrivial": len(nontrivial),
+    # "whenever the compiler produces output" with a fixed-sequence file (C09_fixed_system_wf_pil): entries of every kind, about half of
+    # the files with one string one character short or padded with trailing N's - accepted or not, what is written must pass the predicate
+    from props import c12
+    fcases = []
+    for c in scases + [c02.gen_case(rng) for _ in range(40 if tier == "quick" else 600)]:
+        try: den0, _ = pepper.expected_system_den(c["_gen"], c["_top"], c["args"], 0)
+        except (ValueError, KeyError, ZeroDivisionError, TypeError): den0 = None
+        if den0 is None: continue
+        ents = [e for e in c12.gen_fixed(rng, den0) if "_Anon" not in e[1]]
+        sig = [e for e in ents if e[0] == "signal"]
+        if ents and rng.random() < 0.6:
+            e = rng.choice(sig) if sig and rng.random() < 0.7 else rng.choice(ents)
+            e[2] = e[2][:-1] if rng.random() < 0.5 and len(e[2]) > 1 else e[2] + "N" * rng.choice([1, 2])
+        fc = dict(c); fc["files"] = dict(c["files"]); fc["files"]["fix.fixed"] = c12.fixed_text(rng, ents); fc["fixed"] = "fix.fixed"
+        fcases.append(fc)
+    fimpl = fw.run_impl("props.c02", "impl_case", [{k: v for k, v in c.items() if not k.startswith("_")} for c in fcases], per_case_timeout=60)
+    freqs = []; fidx = []
+    for i, r in enumerate(fimpl):
+        if isinstance(r, dict) and r.get("outcome") == "ok" and r.get("lines") is not None:
+            freqs.append(["wfpil", lines_sexp(r["lines"])]); fidx.append(i)
+    dist["fixed_file_systems"] = len(fcases); dist["fixed_file_outputs"] = len(fidx)
+    for i, m in zip(fidx, fw.run_model(freqs)):
+        c = fcases[i]
+        if m != "T":
+            failures.append({"kind": "predicate", "key": "fixed-system-wf_pil", "summary": "the specification written with a fixed-sequence file violates the well-formedness predicate",
+                             "replay": {"files": c["files"], "argv": "pepper-compiler %s %s --fixed fix.fixed %s" % (c["base"], " ".join(map(str, c["args"])), " ".join("-I " + x for x in c["includes"]))}})
+    return {"evaluations": len(cases) + len(scases) + len(fcases), "distinct_nontrivial": len(nontrivial),
             "rule": "45% AST mutants of generated valid components (delete/duplicate/swap statements, perturb multipliers / lengths / run lengths, rename or star a reference, change a structure symbol, toggle `domain`, change the strand list; 30% doubly mutated) compared model vs implementation; 40% token-level text mutants (delete/duplicate/swap a token, perturb a number, insert a star, replace a bracket); 15% parameterised templates with wrong argument counts. On every accepted case the Coq-extracted predicate wf_pil is evaluated on the real .pil. Non-trivial = mutant that is still accepted",
             "samples": [c["text"] for c in cases[:3]], "distribution": dist, "failures": failures}
 
